@@ -23,8 +23,11 @@ type recoveryForger struct {
 	enc     reedsolomon.Encoder
 	groups  map[uint32]map[int][]byte // group -> position -> bytes from the size prefix on
 	attacks int
+	victims int
 	targets int
 }
+
+const forgerMaxVictims = 60
 
 func newRecoveryForger(sc Scenario) *recoveryForger {
 	f := &recoveryForger{on: sc.ForgeRec && sc.Cfg.Cipher == "nil" && sc.Cfg.D > 0, d: sc.Cfg.D, p: sc.Cfg.P, groups: map[uint32]map[int][]byte{}}
@@ -61,6 +64,13 @@ func (f *recoveryForger) fate(d *simnet.Dgram) (simnet.Fate, bool) {
 	if !f.on || d.Src != cliAddr || d.Dst != srvAddr || len(d.Data) < 8 {
 		return simnet.Fate{}, false
 	}
+	if f.victims >= forgerMaxVictims {
+		// the adversary gives up after a while: a periodic dropper that never stops can stay in step with a sender for ever
+		// (observed under one goroutine schedule: d=1, every fourth group attacked, four segments outstanding that are retransmitted
+		// together once per backed-off RTO -- the first of the four is always the victim, and as it follows a pause its group has no
+		// parity, so the run made no progress for 400 s), and the properties promise completion only once the faults have ended (C02)
+		return simnet.Fate{}, false
+	}
 	seq := binary.LittleEndian.Uint32(d.Data)
 	typ := binary.LittleEndian.Uint16(d.Data[4:])
 	n := uint32(f.d + f.p)
@@ -78,6 +88,7 @@ func (f *recoveryForger) fate(d *simnet.Dgram) (simnet.Fate, bool) {
 	if typ == 0xf1 {
 		f.groups[g][pos] = append([]byte(nil), d.Data[6:]...)
 		if pos == victim {
+			f.victims++
 			return simnet.Fate{}, true // the victim is lost
 		}
 		return simnet.Fate{Delays: []time.Duration{0}}, true
